@@ -113,7 +113,8 @@ Definition advT (c : cfgT) (v : mv) : mv :=
   let delta := u32 (anow32 c v - a_lsc v) in
   let v1 :=
     if is_mono c && (a_last v =? ST_ACTIVE) && negb (a_cc v =? -1) then
-      if (a_cc v =? 1) && (HOLD_US <=? delta) then set_ton_v false (set_cc_v 0 (etrig c CAP_HOLD v)) else v
+      if a_halted v then v
+      else if (a_cc v =? 1) && (HOLD_US <=? delta) then set_ton_v false (set_cc_v 0 (etrig c CAP_HOLD v)) else v
     else v in
   if a_halted v1 then v1
   else if (a_last v1 =? ST_INACTIVE) || is_bi c || is_motion c then
@@ -241,11 +242,9 @@ Proof.
   set (y1 := if is_mono c && (a_last (view s) =? ST_ACTIVE) && negb (a_cc (view s) =? -1) then _ else view s).
   assert (E1 : view x1 = y1).
   { subst x1 y1. destruct (is_mono c && _ && _); [|reflexivity].
-    rewrite halted_view. destruct (a_halted (view s)) eqn:Hh.
-    - (* halted states never reach a callback; both sides are what the code would do *)
-      destruct ((a_cc (view s) =? 1) && (HOLD_US <=? d)); reflexivity.
-    - change (cc s) with (a_cc (view s)). destruct ((a_cc (view s) =? 1) && (HOLD_US <=? d)); [|reflexivity].
-      rewrite set_t_on_view, set_cc_view, emit_trigger_view. reflexivity. }
+    rewrite halted_view. destruct (a_halted (view s)) eqn:Hh; [reflexivity|].
+    change (cc s) with (a_cc (view s)). destruct ((a_cc (view s) =? 1) && (HOLD_US <=? d)); [|reflexivity].
+    rewrite set_t_on_view, set_cc_view, emit_trigger_view. reflexivity. }
   clearbody x1 y1. rewrite halted_view, E1. destruct (a_halted y1); [exact E1|].
   change (last x1) with (a_last (view x1)). rewrite E1.
   destruct ((a_last y1 =? ST_INACTIVE) || is_bi c || is_motion c); [|exact E1].
@@ -258,4 +257,302 @@ Proof.
     set (y2 := set_cc_v (-1) (strig c 0 y1)) in *. clearbody x2 y2.
     change (maxc x2) with (a_maxc (view x2)). rewrite E2.
     destruct (a_maxc y2 <=? 1); [rewrite set_cc_view, set_t_on_view, E2; reflexivity|exact E2].
+Qed.
+
+(* ---------- micro-steps seen through the view ---------- *)
+Inductive astep := ATime (t : Z) | ANotify (st_ : Z) | ATim | AMot | AOut (o : out) | ANop.
+
+Definition set_now_v (t : Z) (v : mv) : mv :=
+  mkmv t (a_last v) (a_cc v) (a_maxc v) (a_act v) (a_relg v) (a_lsc v) (a_silent v) (a_ton v) (a_tdue v) (a_tadv v)
+       (a_relay v) (a_halted v) (a_outs v).
+Definition set_tdue_v (t : Z) (v : mv) : mv :=
+  mkmv (a_now v) (a_last v) (a_cc v) (a_maxc v) (a_act v) (a_relg v) (a_lsc v) (a_silent v) (a_ton v) t (a_tadv v)
+       (a_relay v) (a_halted v) (a_outs v).
+Definition motV (c : cfgT) (v : mv) : mv :=
+  if arelc v && is_motion c then
+    if a_last v =? ST_ACTIVE then onA c false v else if a_last v =? ST_INACTIVE then onI c false v else v
+  else v.
+
+Definition aact (c : cfgT) (a : astep) (v : mv) : mv :=
+  if a_halted v then v else
+  match a with
+  | ATime t => if a_now v <=? t then set_now_v t v else v
+  | ANotify st_ => notifyV c st_ v
+  | ATim => if a_ton v && (a_tdue v <=? a_now v)
+            then let v1 := set_tdue_v (a_tdue v + CYCLE_US) v in if a_tadv v then advT c v1 else v1
+            else v
+  | AMot => motV c v
+  | AOut o => aemit o v
+  | ANop => v
+  end.
+Definition arun (c : cfgT) (l : list astep) (v : mv) : mv := fold_left (fun v a => aact c a v) l v.
+
+(* which step of the machine a micro-step of the model is *)
+Definition abs (c : cfgT) (m : micro) (s : st) : astep :=
+  match m with
+  | MTime t => ATime t
+  | MIn _ => ANop
+  | MDeb => if d_on s && (d_due s <=? now s) && caseB (rearm_d s) then ANotify (stl c (lvl s)) else ANop
+  | MTim => ATim
+  | MMot => if m_on s && (m_due s <=? now s) then AMot else ANop
+  | MTrig _ => ANop
+  | MFault => AOut OFault
+  end.
+Definition is_trig (m : micro) : bool := match m with MTrig _ => true | _ => false end.
+
+Lemma mstep_view c m s : view (mstep c m s) = view (mact c m s).
+Proof. reflexivity. Qed.
+
+Lemma legacy_timer_id c s : cfg_btn c = false -> legacy_timer c s = s.
+Proof. intros Hc. unfold legacy_timer, on_hold_en. rewrite Hc. cbn [andb]. rewrite andb_false_r. reflexivity. Qed.
+
+Theorem sim_step c m s : cfg_btn c = false -> is_trig m = false ->
+  view (mstep c m s) = aact c (abs c m s) (view s).
+Proof.
+  intros Hc Ht. rewrite mstep_view. unfold aact. change (a_halted (view s)) with (halted s).
+  destruct (halted s) eqn:Hs; [rewrite mact_halted by assumption; reflexivity|].
+  destruct m; try discriminate.
+  - (* MTime *) unfold mact, abs. rewrite Hs. change (a_now (view s)) with (now s). destruct (now s <=? t); reflexivity.
+  - (* MIn *) unfold mact, abs. rewrite Hs. destruct (l =? lvl s); [reflexivity|].
+    unfold isr, arm_d. repeat match goal with |- context[if ?b then _ else _] => destruct b end; reflexivity.
+  - (* MDeb *) rewrite mact_deb by assumption. unfold abs.
+    destruct (d_on s && (d_due s <=? now s)); [|reflexivity]. cbn [andb].
+    destruct (caseA (rearm_d s)) eqn:EA.
+    + rewrite deb_cb_A by assumption. unfold caseB. rewrite EA. reflexivity.
+    + destruct (caseB (rearm_d s)) eqn:EB.
+      * rewrite deb_cb_B by assumption. cbv zeta.
+        assert (E : view (notify c (stl c (lvl (rearm_d s))) (rearm_d s)) = notifyV c (stl c (lvl s)) (view s)).
+        { rewrite notify_view by assumption. reflexivity. }
+        set (y := notify c (stl c (lvl (rearm_d s))) (rearm_d s)) in *.
+        destruct (halted y); [exact E|]. rewrite <- E. reflexivity.
+      * rewrite deb_cb_C by assumption. reflexivity.
+  - (* MTim *) unfold mact, abs. rewrite Hs.
+    change (a_ton (view s)) with (t_on s). change (a_tdue (view s)) with (t_due s). change (a_now (view s)) with (now s).
+    destruct (t_on s && (t_due s <=? now s)); [|reflexivity]. cbv zeta.
+    change (a_tadv (view s)) with (t_adv s). destruct (t_adv s).
+    + rewrite adv_timer_view by assumption. reflexivity.
+    + rewrite legacy_timer_id by assumption. reflexivity.
+  - (* MMot *) unfold mact, abs. rewrite Hs. destruct (m_on s && (m_due s <=? now s)); [|reflexivity].
+    unfold mot_cb, motV. rewrite relc_view.
+    change (view (set_m_on false s)) with (view s).
+    destruct (arelc (view s) && is_motion c); [|reflexivity].
+    change (last (set_m_on false s)) with (a_last (view s)).
+    destruct (a_last (view s) =? ST_ACTIVE); [rewrite on_active_view; reflexivity|].
+    destruct (a_last (view s) =? ST_INACTIVE); [rewrite on_inactive_view; reflexivity|reflexivity].
+  - (* MFault *) unfold mact, abs. rewrite Hs. reflexivity.
+Qed.
+
+Fixpoint atrace (c : cfgT) (ms : list micro) (s : st) : list astep :=
+  match ms with [] => [] | m :: ms' => abs c m s :: atrace c ms' (mstep c m s) end.
+Theorem sim_run c ms : forall s, cfg_btn c = false -> forallb (fun m => negb (is_trig m)) ms = true ->
+  view (mrun c ms s) = arun c (atrace c ms s) (view s).
+Proof.
+  induction ms as [|m ms IH]; intros s Hc Hn; [reflexivity|].
+  cbn in Hn. apply andb_prop in Hn as [H1 H2]. apply negb_true_iff in H1.
+  rewrite mrun_cons. cbn [atrace]. unfold arun. cbn [fold_left]. rewrite <- sim_step by assumption.
+  apply IH; assumption.
+Qed.
+
+(* ---------- plain mode on the machine ---------- *)
+Definition gpv (v : mv) : list out := filter is_gpio (a_outs v).
+Definition plain_expect (c : cfgT) (st_ r0 : Z) : option Z :=
+  if is_mono c then (if Bool.eqb (st_ =? ST_ACTIVE) (hasb (flags c) FLAG_TRIGGER_ON_PRESS) then Some (1 - r0) else None)
+  else if is_bi c then Some (1 - r0) else if is_motion c then Some st_ else None.
+
+Ltac closedZ t := match t with Z0 => idtac | Zpos _ => idtac | Zneg _ => idtac | _ => is_const t end.
+Ltac kc := repeat match goal with
+  | |- context[?a =? ?b] => closedZ a; closedZ b;
+      let v := eval vm_compute in (a =? b) in
+      match v with true => change (a =? b) with true | false => change (a =? b) with false end
+  | |- context[hasb 0 ?b] => change (hasb 0 b) with false
+  end.
+Ltac gv := cbn [a_now a_last a_cc a_maxc a_act a_relg a_lsc a_silent a_ton a_tdue a_tadv a_relay a_halted a_outs
+                aemit arelc set_cc_v set_ton_v set_lsc_v arm_v set_now_v set_tdue_v andb orb negb Bool.eqb gpv filter is_gpio app].
+
+Lemma types_excl c :
+  (is_mono c = true -> is_bi c = false /\ is_motion c = false /\ is_sensor c = false) /\
+  (is_bi c = true -> is_motion c = false /\ is_sensor c = false) /\
+  (is_motion c = true -> is_sensor c = false).
+Proof.
+  unfold is_mono, is_bi, is_motion, is_sensor.
+  split; [|split]; intros H0; apply Z.eqb_eq in H0; rewrite H0; repeat split; reflexivity.
+Qed.
+
+Theorem plain_notify_v c st_ v :
+  a_act v = 0 -> asilent_ret c v = false -> a_halted v = false -> a_last v <> st_ ->
+  (st_ = ST_ACTIVE \/ st_ = ST_INACTIVE) -> (a_relay v = 0 \/ a_relay v = 1) ->
+  let r := notifyV c st_ v in
+  a_last r = st_ /\ a_act r = 0 /\ a_ton r = false /\ a_halted r = false /\
+  (arelc v = false -> a_relay r = a_relay v /\ gpv r = gpv v) /\
+  (arelc v = true ->
+    match plain_expect c st_ (a_relay v) with
+    | Some h => a_relay r = h /\ gpv r = (if h =? a_relay v then [] else [OGpio (a_now v + RELAY_D1) h]) ++ gpv v
+    | None => a_relay r = a_relay v /\ gpv r = gpv v
+    end).
+Proof.
+  destruct v as [nw la c0 mx ac rg ls si tn td ta rl hl ou]. cbn [a_act a_halted a_last a_relay a_now].
+  intros -> Hs -> Hl Hst Hrel. cbv zeta.
+  unfold notifyV. cbv zeta.
+  change (asilent_ret c (aemit _ _)) with (asilent_ret c (mkmv nw la c0 mx 0 rg ls si tn td ta rl false ou)). rewrite Hs.
+  gv. destruct (la =? st_) eqn:E; [apply Z.eqb_eq in E; congruence|]. kc. gv.
+  unfold legH. cbv zeta. gv. unfold plain_expect.
+  destruct (types_excl c) as (X1 & X2 & X3).
+  destruct Hst as [-> | ->]; kc; cbv iota.
+  - unfold onA, arelc. cbv zeta. gv. kc. gv.
+    destruct (negb (rg =? NOREL)) eqn:ER; rewrite ?andb_true_r, ?andb_false_r.
+    + destruct (is_mono c) eqn:T1.
+      { destruct (X1 eq_refl) as (T2 & T3 & T4). rewrite T2, T3, ?T4. gv.
+        destruct (hasb (flags c) FLAG_TRIGGER_ON_PRESS); gv.
+        - unfold sw. cbv zeta. gv. kc. cbv iota.
+          destruct Hrel as [-> | ->]; kc; cbv iota; gv; repeat split; intros; try discriminate; reflexivity.
+        - repeat split; intros; try discriminate; reflexivity. }
+      destruct (is_bi c) eqn:T2.
+      { destruct (X2 eq_refl) as (T3 & T4). rewrite T3, ?T4. gv.
+        unfold sw. cbv zeta. gv. kc. cbv iota.
+        destruct Hrel as [-> | ->]; kc; cbv iota; gv; repeat split; intros; try discriminate; reflexivity. }
+      destruct (is_motion c) eqn:T3; gv.
+      { unfold sw. cbv zeta. gv. kc. cbv iota.
+        destruct Hrel as [-> | ->]; kc; cbv iota; gv; repeat split; intros; try discriminate; reflexivity. }
+      destruct (is_sensor c && _); gv; repeat split; intros; try discriminate; reflexivity.
+    + destruct (is_sensor c && _); gv; repeat split; intros; try discriminate; reflexivity.
+  - unfold onI, arelc. cbv zeta. gv.
+    destruct (negb (rg =? NOREL)) eqn:ER; rewrite ?andb_true_r, ?andb_false_r.
+    + destruct (is_mono c) eqn:T1.
+      { destruct (X1 eq_refl) as (T2 & T3 & T4). rewrite T2, T3, ?T4. gv.
+        destruct (hasb (flags c) FLAG_TRIGGER_ON_PRESS); gv.
+        - repeat split; intros; try discriminate; reflexivity.
+        - unfold sw. cbv zeta. gv. kc. cbv iota.
+          destruct Hrel as [-> | ->]; kc; cbv iota; gv; repeat split; intros; try discriminate; reflexivity. }
+      destruct (is_bi c) eqn:T2.
+      { destruct (X2 eq_refl) as (T3 & T4). rewrite T3, ?T4. gv.
+        unfold sw. cbv zeta. gv. kc. cbv iota.
+        destruct Hrel as [-> | ->]; kc; cbv iota; gv; repeat split; intros; try discriminate; reflexivity. }
+      destruct (is_motion c) eqn:T3; gv.
+      { kc. gv. unfold sw. cbv zeta. gv. kc. cbv iota.
+        destruct Hrel as [-> | ->]; kc; cbv iota; gv; repeat split; intros; try discriminate; reflexivity. }
+      destruct (is_sensor c && _); gv; repeat split; intros; try discriminate; reflexivity.
+    + destruct (is_sensor c && _); gv; repeat split; intros; try discriminate; reflexivity.
+Time Qed.
+
+Record PlainV (v : mv) : Prop := { pv_act : a_act v = 0; pv_ton : a_ton v = false; pv_rel : a_relay v = 0 \/ a_relay v = 1 }.
+(* this notify is effective: the silent start-up period is over and the state is new *)
+Definition effV (c : cfgT) (st_ : Z) (v : mv) : bool := negb (asilent_ret c v) && negb (a_last v =? st_).
+
+Lemma notify_noneff_v c st_ v : effV c st_ v = false ->
+  let r := notifyV c st_ v in
+  a_relay r = a_relay v /\ a_act r = a_act v /\ a_ton r = a_ton v /\ gpv r = gpv v /\ a_halted r = a_halted v.
+Proof.
+  destruct v as [nw la c0 mx ac rg ls si tn td ta rl hl ou]. unfold effV. cbn [a_last]. intros H. cbv zeta.
+  unfold notifyV. cbv zeta.
+  change (asilent_ret c (aemit _ _)) with (asilent_ret c (mkmv nw la c0 mx ac rg ls si tn td ta rl hl ou)).
+  destruct (asilent_ret c _); gv; [repeat split|]. cbn [negb andb] in H. apply negb_false_iff in H. rewrite H.
+  repeat split.
+Qed.
+
+Lemma sw_inv hi v : (hi = 0 \/ hi = 1 \/ hi = 255) ->
+  a_act (sw hi v) = a_act v /\ a_ton (sw hi v) = a_ton v /\ (a_relay (sw hi v) = 0 \/ a_relay (sw hi v) = 1).
+Proof.
+  intros H. unfold sw. cbv zeta. gv. split; [reflexivity|]. split; [reflexivity|].
+  destruct H as [-> | [-> | ->]]; kc; cbv iota; auto. destruct (a_relay v =? 1); auto.
+Qed.
+Lemma onA_inv c lg v : (a_relay v = 0 \/ a_relay v = 1) ->
+  a_act (onA c lg v) = a_act v /\ a_ton (onA c lg v) = a_ton v /\ (a_relay (onA c lg v) = 0 \/ a_relay (onA c lg v) = 1).
+Proof.
+  intros R. unfold onA. cbv zeta.
+  set (x := if lg then aemit _ v else v).
+  assert (X : a_act x = a_act v /\ a_ton x = a_ton v /\ a_relay x = a_relay v) by (subst x; destruct lg; gv; auto).
+  clearbody x. destruct X as (x1 & x2 & x3). rewrite <- x1, <- x2. rewrite <- x3 in R.
+  repeat match goal with |- context[if ?b then _ else _] => destruct b end; gv; auto; apply sw_inv; auto.
+Qed.
+Lemma onI_inv c lg v : (a_relay v = 0 \/ a_relay v = 1) ->
+  a_act (onI c lg v) = a_act v /\ a_ton (onI c lg v) = a_ton v /\ (a_relay (onI c lg v) = 0 \/ a_relay (onI c lg v) = 1).
+Proof.
+  intros R. unfold onI. cbv zeta.
+  set (x := if lg then aemit _ v else v).
+  assert (X : a_act x = a_act v /\ a_ton x = a_ton v /\ a_relay x = a_relay v) by (subst x; destruct lg; gv; auto).
+  clearbody x. destruct X as (x1 & x2 & x3). rewrite <- x1, <- x2. rewrite <- x3 in R.
+  repeat match goal with |- context[if ?b then _ else _] => destruct b end; gv; auto; apply sw_inv; auto.
+Qed.
+
+Theorem plain_step_v c a v :
+  PlainV v -> (forall o, a = AOut o -> is_gpio o = false) ->
+  (forall st_, a = ANotify st_ -> st_ = ST_ACTIVE \/ st_ = ST_INACTIVE) ->
+  let r := aact c a v in
+  PlainV r /\
+  match a with
+  | ANotify st_ =>
+      if negb (a_halted v) && effV c st_ v then
+        st_ = ST_ACTIVE \/ st_ = ST_INACTIVE ->
+        a_last r = st_ /\
+        (arelc v = false -> a_relay r = a_relay v /\ gpv r = gpv v) /\
+        (arelc v = true ->
+          match plain_expect c st_ (a_relay v) with
+          | Some h => a_relay r = h /\ gpv r = (if h =? a_relay v then [] else [OGpio (a_now v + RELAY_D1) h]) ++ gpv v
+          | None => a_relay r = a_relay v /\ gpv r = gpv v
+          end)
+      else a_relay r = a_relay v /\ gpv r = gpv v
+  | AMot => True
+  | _ => a_relay r = a_relay v /\ gpv r = gpv v
+  end.
+Proof.
+  intros [Pa Pt Pr] Ho Hn. cbv zeta. unfold aact.
+  destruct (a_halted v) eqn:Hh.
+  { split; [constructor; assumption|]. destruct a; cbn [negb andb]; try exact I; split; reflexivity. }
+  destruct a.
+  - destruct (a_now v <=? t); gv; (split; [constructor; gv; assumption|auto]).
+  - cbn [negb andb]. destruct (effV c st_ v) eqn:EF.
+    + unfold effV in EF. apply andb_prop in EF as [E1 E2]. apply negb_true_iff in E1, E2. apply Z.eqb_neq in E2.
+      pose proof (Hn st_ eq_refl) as Hst.
+      destruct (plain_notify_v c st_ v Pa E1 Hh E2 Hst Pr) as (n1&n2&n3&n4&n5&n6). cbv zeta in *.
+      split; [|auto].
+      constructor; try assumption.
+      destruct (arelc v) eqn:RC; [specialize (n6 eq_refl)|destruct (n5 eq_refl) as [n5' _]; rewrite n5'; exact Pr].
+      unfold plain_expect in n6.
+      destruct (is_mono c); [destruct (Bool.eqb _ _)|destruct (is_bi c); [|destruct (is_motion c)]];
+        destruct n6 as [n6 _]; rewrite n6; try exact Pr; try (destruct Pr as [P|P]; rewrite P; auto; fail);
+        destruct Hst as [-> | ->]; auto.
+    + destruct (notify_noneff_v c st_ v EF) as (m1&m2&m3&m4&m5). cbv zeta in *.
+      split; [constructor; congruence|auto].
+  - rewrite Pt. cbn [andb]. split; [constructor; assumption|auto].
+  - split; [|exact I]. unfold motV.
+    repeat match goal with |- context[if ?b then _ else _] => destruct b end; try (constructor; assumption).
+    + destruct (onA_inv c false v Pr) as (x1&x2&x3). constructor; congruence.
+    + destruct (onI_inv c false v Pr) as (x1&x2&x3). constructor; congruence.
+  - gv. split; [constructor; gv; assumption|]. split; [reflexivity|]. unfold gpv. gv. rewrite (Ho o eq_refl). reflexivity.
+  - split; [constructor; assumption|auto].
+Qed.
+
+(* the same about the model: every micro-step in plain mode *)
+Theorem plain_once_thm c m s :
+  cfg_btn c = false -> is_trig m = false -> PlainV (view s) ->
+  let r := view (mstep c m s) in let v := view s in
+  PlainV r /\
+  match abs c m s with
+  | ANotify st_ =>
+      if negb (a_halted v) && effV c st_ v then
+        a_last r = st_ /\
+        (arelc v = false -> a_relay r = a_relay v /\ gpv r = gpv v) /\
+        (arelc v = true ->
+          match plain_expect c st_ (a_relay v) with
+          | Some h => a_relay r = h /\ gpv r = (if h =? a_relay v then [] else [OGpio (a_now v + RELAY_D1) h]) ++ gpv v
+          | None => a_relay r = a_relay v /\ gpv r = gpv v
+          end)
+      else a_relay r = a_relay v /\ gpv r = gpv v
+  | AMot => True
+  | _ => a_relay r = a_relay v /\ gpv r = gpv v
+  end.
+Proof.
+  intros Hc Ht HP. cbv zeta. rewrite sim_step by assumption.
+  assert (Ho : forall o, abs c m s = AOut o -> is_gpio o = false).
+  { intros o E. destruct m; cbn in E; try discriminate;
+      try (destruct (_ && _) in E; discriminate). injection E as <-. reflexivity. }
+  assert (Hn : forall st_, abs c m s = ANotify st_ -> st_ = ST_ACTIVE \/ st_ = ST_INACTIVE).
+  { intros st_ E. destruct m; cbn in E; try discriminate.
+    - destruct (_ && _) in E; [|discriminate]. injection E as <-. unfold stl. destruct (_ =? _); auto.
+    - destruct (_ && _) in E; discriminate. }
+  destruct (plain_step_v c (abs c m s) (view s) HP Ho Hn) as [P1 P2]. cbv zeta in *.
+  split; [exact P1|].
+  destruct (abs c m s) eqn:EA; try exact P2.
+  destruct (negb (a_halted (view s)) && effV c st_ (view s)); [|exact P2].
+  apply P2. apply Hn. reflexivity.
 Qed.
